@@ -19,7 +19,7 @@ from vf.xmodel import Schema, Rop, Shadow, Bound
 SHARDS = {'quick': 16, 'thorough': 64}
 TIMEOUT = {'quick': 1500, 'thorough': 7200}
 MUST_HIT = ['Call.same-named-operations-of-two-classes', 'Call.name-differs-in-case-only-function', 'Call.name-differs-in-case-only-external-entity', 'Call.python-function', 'Call.python-bridge', 'Call.python-class-operation',
-            'Call.derived-attribute-early-bare-return', 'Scope.local-named-like-parameter', 'Call.argument-order-observable', 'Call.operand-order-observable', 'Call.earlier-component-rechecked', 'Call.builtin-external-entity', 'Call.legacy-keyword-bridge', 'Call.legacy-keyword-transform', 'Call.python-instance-operation', 'Call.derived-attribute', 'Call.derived-attribute-outside-state', 'Call.enumerator', 'Call.constant',
+            'Call.derived-attribute-early-bare-return', 'Scope.local-named-like-parameter', 'Call.argument-order-observable', 'Call.operand-order-observable', 'Call.loop-condition-with-effect-left-through-break', 'Call.earlier-component-rechecked', 'Call.builtin-external-entity', 'Call.legacy-keyword-bridge', 'Call.legacy-keyword-transform', 'Call.python-instance-operation', 'Call.derived-attribute', 'Call.derived-attribute-outside-state', 'Call.enumerator', 'Call.constant',
             'Call.nested', 'Call.recursive', 'Call.return-inside-while-body', 'Call.return-inside-for-each-body', 'Call.bare-return', 'Call.no-return', 'Call.in-where-clause',
             'Call.in-loop-condition', 'Scope.caller-variable-kept', 'State.compared']
 MUST_REACH = ['bridgepoint/ooaofooa.py:mk_function', 'bridgepoint/ooaofooa.py:mk_bridge',
@@ -99,6 +99,7 @@ LEGACY = {}
 SHADOWED = [0]
 ARG_ORDER = [0]
 OPERAND_ORDER = [0]
+BREAK_WITH_EFFECT = [0]
 EARLY = {}
 PREVIOUS = []
 DER_FORMS = {}
@@ -356,6 +357,20 @@ class ModelGen(object):
                     stmts.append(oalsem.assign(oalsem.var(v), call_node(pair[0], {
                         'a': oalsem.attr(oalsem.self_(), 'N'), 'b': call_node(bump[0], {})})))
                     locals_[v] = INT
+        if r.random() < 0.25:
+            # a loop condition with an effect, and a loop that is left through break: the condition is evaluated once
+            # per iteration that starts, and not again after the break
+            bump = [x for x in self.elems[:rank] if x.name == 'bump_all']
+            if bump:
+                w = 'w%d' % rank
+                stmts.append(oalsem.assign(oalsem.var(w), oalsem.lit(0)))
+                cond = oalsem.bin_('and', oalsem.bin_('<', oalsem.var(w), oalsem.lit(r.randint(2, 4))),
+                                   oalsem.bin_('>', call_node(bump[0], {}), oalsem.lit(0)))
+                stmts.append(oalsem.while_(cond, [
+                    oalsem.assign(oalsem.var(w), oalsem.bin_('+', oalsem.var(w), oalsem.lit(1))),
+                    oalsem.if_(oalsem.bin_('==', oalsem.var(w), oalsem.lit(r.randint(1, 3))), [oalsem.break_()])]))
+                locals_[w] = INT
+                BREAK_WITH_EFFECT[0] += 1
         if e.kind == 'iop' and r.random() < 0.4:
             # the operands of an operator are evaluated from left to right as well: self.N <op> bump_all() reads the
             # attribute as it was before bump_all changed it
@@ -854,6 +869,7 @@ def run(ctx):
     ctx.hit('Call.same-named-operations-of-two-classes', SAME_NAMED_OPS[0])
     ctx.hit('Call.argument-order-observable', ARG_ORDER[0])
     ctx.hit('Call.operand-order-observable', OPERAND_ORDER[0])
+    ctx.hit('Call.loop-condition-with-effect-left-through-break', BREAK_WITH_EFFECT[0])
     ctx.hit('Scope.local-named-like-parameter', SHADOWED[0])
     for k, n in EARLY.items():
         ctx.hit('Call.return-inside-%s-body' % k, n)
